@@ -96,3 +96,54 @@ class inject:
 
 
 _MISSING = object()
+
+
+# ---------------------------------------------------------------------------------------------
+# random small trees built through the bs4 API (for the differential checks against vlib/refmodel.py)
+import random  # noqa: E402
+
+TVALS = ['x', 'xy', 'x y', 'X', 'x-y', '', 'yx', 'y']
+
+
+def random_tree(r, kind='html', max_nodes=7):
+    """kind: 'html' (html.parser builder), 'xml' (lxml-xml builder), 'detached' (no document object)."""
+    soup = bs4.BeautifulSoup('', 'xml' if kind == 'xml' else 'html.parser')
+    budget = [r.randint(2, max_nodes)]
+    ids = ['i1', 'i2', 'i1']
+
+    def make(depth):
+        el = soup.new_tag(r.choice(['a', 'b', 'a', 'b', 'A'] if kind != 'xml' else ['a', 'b', 'A']))
+        if r.random() < 0.35:
+            el.attrs['id'] = r.choice(ids)
+        if r.random() < 0.4:
+            el.attrs['class'] = r.sample(['k', 'm'], r.choice([1, 2]))
+        if r.random() < 0.5:
+            el.attrs[r.choice(['t', 't', 'T', 'type'])] = r.choice(TVALS)
+        n = 0 if depth >= 3 else r.choice([0, 0, 1, 2, 3])
+        for _ in range(n):
+            k = r.random()
+            if k < 0.55 and budget[0] > 0:
+                budget[0] -= 1
+                el.append(make(depth + 1))
+            elif k < 0.7:
+                el.append(bs4.NavigableString(r.choice([' ', '\n ', 'txt', ' x '])))
+            elif k < 0.85:
+                el.append(bs4.Comment('c'))
+            elif k < 0.93:
+                el.append(bs4.CData('cd'))
+            else:
+                el.append(bs4.ProcessingInstruction('pi'))
+        return el
+
+    root = make(0)
+    if kind == 'detached':
+        return root, root
+    lead = r.random()
+    if lead < 0.3:
+        soup.append(bs4.Comment('lead'))
+    if lead > 0.8:
+        soup.append(bs4.Doctype('html'))
+    soup.append(root)
+    if r.random() < 0.3:
+        soup.append(bs4.NavigableString('\n'))
+    return soup, root
